@@ -116,11 +116,17 @@ class ConversionTimeout(Exception):
 
 def convert(src, i):
     """convert_code_string under a watchdog (a conversion normally takes about a millisecond)."""
-    try:
-        with time_limit(CONVERT_LIMIT):
-            return ol().convert_code_string(src, configs=mk_cfg(i))
-    except Timeout:
-        raise ConversionTimeout("conversion did not finish within %gs" % CONVERT_LIMIT)
+    for attempt in range(4):
+        c0 = time.process_time()
+        try:
+            with time_limit(CONVERT_LIMIT):
+                return ol().convert_code_string(src, configs=mk_cfg(i))
+        except Timeout:
+            # the watchdog measures wall-clock time: on an overloaded machine a starved worker must not be mistaken for
+            # a conversion that does not terminate - only CPU time actually spent in the conversion counts
+            if time.process_time() - c0 < CONVERT_LIMIT * 0.5 and attempt < 3:
+                continue
+            raise ConversionTimeout("conversion did not finish within %gs" % CONVERT_LIMIT)
 
 
 
